@@ -107,11 +107,24 @@ fn rename2(toks: &[Tok]) -> Vec<Tok> {
         .collect()
 }
 
+/// names that look like the exponent part of a number in scientific notation (2e1, 2E2, 2e-1)
+fn rename3(toks: &[Tok]) -> Vec<Tok> {
+    toks.iter()
+        .map(|t| match t {
+            Tok::Var("a") => Tok::Var("e"),
+            Tok::Var("b") => Tok::Var("E2"),
+            Tok::Var("x") => Tok::Var("e1"),
+            Tok::Var("c") => Tok::Var("e3"),
+            o => o.clone(),
+        })
+        .collect()
+}
+
 fn well_typed(a: &Ast) -> Option<bool> {
     // Some(true) = boolean, Some(false) = numeric, None = ill-typed for the transformer
     match a {
         Ast::Num(_) => Some(false),
-        Ast::Var(v) => Some(!(v == "x" || v.ends_with("notx") || v == "inx")),
+        Ast::Var(v) => Some(!(v == "x" || v.ends_with("notx") || v == "inx" || v == "e1")),
         Ast::Neg(e) => well_typed(e).map(|_| false),
         Ast::Not(e) => match well_typed(e) {
             Some(true) => Some(true),
@@ -149,6 +162,7 @@ fn check(toks: &[Tok], l: &mut Local) {
         ("aliases-tight", toks.to_vec(), true, true),
         ("keyword-prefixed-names", rename(toks), false, false),
         ("keyword-prefixed-names-2", rename2(toks), true, true),
+        ("exponent-like-names", rename3(toks), false, true),
     ];
     for (vname, vt, alias, tight) in variants {
         let text = render_tokens(&vt, alias, tight);
@@ -225,7 +239,7 @@ pub fn run(mut run: Run) -> ! {
     crate::core::silence_panics();
     let max_len = if run.quick() { 7 } else { 8 };
     let seqs = Arc::new(gen_all(max_len, &["a", "b", "x"], &["2"]));
-    run.rule = format!("all well-formed token sequences of length <= {max_len} over operands {{a,b,x,2}}, 9 binary operators, prefix - and not, parentheses and implicit multiplication (number|parenthesis)+ variable?, generated by a grammar-directed DFS (complete over well-formed sequences); each is rendered with keywords, with symbolic aliases, with/without whitespace and with identifiers that start with a keyword, in objective and constraint position; distinct = reference tree shapes");
+    run.rule = format!("all well-formed token sequences of length <= {max_len} over operands {{a,b,x,2}}, 9 binary operators, prefix - and not, parentheses and implicit multiplication (number|parenthesis)+ variable?, generated by a grammar-directed DFS (complete over well-formed sequences); each is rendered with keywords, with symbolic aliases, with/without whitespace with identifiers that start with a keyword and with identifiers that look like a decimal exponent (e, e1, E2) glued to a number, in objective and constraint position; distinct = reference tree shapes");
     run.assume("reference: precedence climbing with one prefix operator per leaf binding tightest, * / > + - > and > xor > or > {implies right, iff left} on one level, implicit multiplication forming one left-folded factor; shapes (not only values) are compared, which is stronger than the property");
     let s2 = seqs.clone();
     run.family(&format!("token-sequences-len<={max_len}"), seqs.len() as u64, move |i, l| {
